@@ -10,6 +10,7 @@ paths through lists, zero widths):
     simulation (simulate-then-synthesise and the reverse); all RTLIL texts must be identical;
   * memory-map / event-map metadata snapshots before and after must be identical.
 """
+import copy
 import random
 
 from vmon import env  # noqa: F401
@@ -88,6 +89,10 @@ def gen_case(rng, tier, idx):
         case["copies"] = rng.choice([2, 2, 3])
     elif kind == "register":
         case["reg"] = c11mod.gen_case(rng, tier, rng.randrange(1000))
+    # a second instance elaborated between two elaborations of the judged one: identical parameters, the same
+    # parameters with one of them varied (the sharing limit, for multiplexers), or unrelated parameters
+    case["twin"] = rng.choice([None, None, "same", "variant", "variant", "other"])
+    case["twin_overlaps"] = rng.choice([None, 0, 0, 1, 2])
     return case
 
 
@@ -376,6 +381,38 @@ BUILDERS = {"soc": b_soc, "mux": b_mux, "csrdec": b_csrdec, "wbdec": b_wbdec, "a
             "csrevmon": b_csrevmon, "gpio": b_gpio}
 
 
+def build_twin(case, mon):
+    """Another instance of the same component class, elaborated between two elaborations of the judged instance.
+    Nothing about the twin is judged here (it is a case of its own elsewhere); whatever it raises is only counted."""
+    how = case.get("twin")
+    if how is None:
+        return None
+    tcase = copy.deepcopy(case)
+    if how == "variant" and "layout" in tcase:
+        tcase["layout"]["overlaps"] = case["twin_overlaps"]
+    trng = random.Random(case["stim_seed"] + (":twin" if how == "other" else ""))
+    try:
+        tdut, textra, _meta, _finding = BUILDERS[case["kind"]](tcase, trng, {})
+    except Exception:
+        mon.count("twin_refused")
+        return None
+    tports = []
+    for obj in [tdut] + list(textra):
+        for s in all_signals(obj):
+            if not any(s is p for p in tports):
+                tports.append(s)
+    mon.bin("twin", how)
+    return Top({"dut": tdut}), tports
+
+
+def elaborate_twin(twin, mon):
+    try:
+        rtlil.convert(twin[0], ports=twin[1], emit_src=False)
+        mon.count("twin_elaborated_in_between")
+    except Exception:
+        mon.count("twin_refused")
+
+
 def run_case(case):
     rng = random.Random(case["stim_seed"])
     mon = Mon()
@@ -432,7 +469,10 @@ def run_case(case):
     texts = []
     refused_steps = []
     order = case["order"]
+    twin = build_twin(case, mon)
     for step, op in enumerate(order):
+        if step == 1 and twin is not None:
+            elaborate_twin(twin, mon)
         try:
             with StepCounter(ELAB_STEP_LIMIT) as sc:
                 if op == "r":
